@@ -31,7 +31,7 @@ MODEL_VO = ["Lib/PyBytes.vo", "Gen/GenRegex.vo", "Model/Receiver.vo", "Model/Url
 
 
 def run(ctx):
-    ctx.translate({"GenRegex", "GenTables"})
+    ctx.translate({"GenRegex", "GenTables", "GenPreds"})
     ctx.gate()
     props_ok, failing, log = ctx.props()
     ctx.build(list(MODEL_VO))
@@ -189,6 +189,22 @@ def run(ctx):
                "" if not slow and not hung else "%d slow, hung=%r" % (len(slow), bool(hung)))
     samples.append({"suite": "hang-search", "inputs": n_h, "slow": len(slow), "hung": bool(hung)})
 
+    # "stops consuming" at loop level (C06_no_read_event_select / _poll2): the statement
+    # evaluated on the REAL wasyncore.poll / poll2 / readwrite for every scan outcome and
+    # every kernel answer the hypotheses allow (shared with C18: harness/server.py)
+    from harness import server as HS
+    loop_turns, loop_bad = HS.loop_search()
+    evaluations += loop_turns
+    loop_bad = [v for v in loop_bad if "handle_read_event" in v["what"]]
+    ctx.oblige("loop: real poll / poll2 dispatch no read event to an object whose readable() was false at scan time (%d turns)" % loop_turns,
+               not loop_bad, "" if not loop_bad else loop_bad[0]["what"])
+    for v in loop_bad[:1]:
+        ctx.report("loop-read:%s" % v["loop"],
+                   "C06: %s keeps reading from a connection that must not be read: %s (readable()=%s writable()=%s, kernel answer %r)"
+                   % (v["loop"], v["what"], v["readable"], v["writable"], v["kernel_answer"]),
+                   dict(v, kind="loop", expected="no handle_read_event unless readable() held at scan time", observed=v["what"]))
+    samples.append({"suite": "loop-level", "turns": loop_turns, "violating": len(loop_bad)})
+
     if not props_ok and not ctx.violations:
         ctx.report("c06-proof-broken", "Props/C06.v no longer checks (%s); the search found no failing stream" % failing,
                    {"failing_input_found": False, "broken": "Props/C06.v via %s" % failing, "log_tail": (log or "")[-1500:]})
@@ -203,6 +219,12 @@ def run(ctx):
 
 
 def replay(data):
+    if data.get("kind") == "loop":
+        from harness import server as HS
+        n, bad = HS.loop_search()
+        bad = [v for v in bad if "handle_read_event" in v["what"]]
+        print("loop-level statement now: %d turns, %d violating; then: %s" % (n, len(bad), data.get("what")))
+        return 1 if bad else 0
     if data.get("kind") == "hang":
         from harness import hang_search
         n, slow, hung = hang_search.search(120)
